@@ -2,6 +2,7 @@
    Life/ReadLoop.v, the Read wrapper over ANY decoder program (flate, brotli,
    bzip2 and meta decoders are such programs), with [Inv] holding for the
    freshly opened reader. *)
+From V Require Import Prefix.ReaderImpl Prefix.ReaderSpec Prefix.ReaderThms.
 From V Require Import XFlate.Index XFlate.Reader XFlate.Refine XFlate.Sequential.
 From V Require Import Base.Prelude Base.Prog Life.ReadLoop.
 
@@ -53,3 +54,20 @@ Theorem xflate_sequential_reads_any_buffer_sizes : forall data content s1 ns,
   firstn (Z.to_nat (XFlate.Sequential.total ns)) content.
 Proof. exact xflate_sequential_reads_any_schedule. Qed.
 Print Assumptions xflate_sequential_reads_any_buffer_sizes.
+
+(* The implementation-level model of prefix.Reader (64-bit buffer, wide loads with
+   look-ahead bits, Peek/Discard bookkeeping, Flush, raw Read after repair D5; validated
+   against the real Reader over scripted sources on every run) REFINES the abstract bit
+   stream: for every data, both bit orders, every script of the source's freedoms (how much
+   more than asked it buffers, how much a raw Read returns) and every sequence of ReadBits
+   (<= 57 bits) / ReadPads / raw Read / Flush: every value is the value of the next bits of
+   the stream, BitsRead is the abstract position, a raw Read returns the bytes at the
+   aligned position, and after a Flush the source has been advanced over exactly the bytes
+   that hold the bits read (no over-consumption). Same for a ReadByte-only source. *)
+Theorem bit_reader_independent_of_source_script_buffered : reader_refines_buffered.
+Proof. exact reader_refines_buffered_holds. Qed.
+Print Assumptions bit_reader_independent_of_source_script_buffered.
+
+Theorem bit_reader_independent_of_source_script_bytereader : reader_refines_bytereader.
+Proof. exact reader_refines_bytereader_holds. Qed.
+Print Assumptions bit_reader_independent_of_source_script_bytereader.
